@@ -394,11 +394,22 @@ func (s *String) ReadASN1Enum(out *int) bool {
 func (s *String) readBase128Int(out *int) bool {
 	ret := 0
 	for i := 0; len(*s) > 0; i++ {
-		if i == 4 {
+		if i == 5 {
+			return false
+		}
+		// Avoid overflowing int on a 32-bit platform.
+		// We don't want different behavior based on the architecture.
+		if ret >= 1<<(31-7) {
 			return false
 		}
 		ret <<= 7
 		b := s.read(1)[0]
+		// ITU-T X.690, section 8.19.2: the subidentifier shall be encoded in
+		// the fewest possible octets, that is, the leading octet of the
+		// subidentifier shall not have the value 0x80.
+		if i == 0 && b == 0x80 {
+			return false
+		}
 		ret |= int(b & 0x7f)
 		if b&0x80 == 0 {
 			*out = ret
